@@ -30,9 +30,15 @@ Record case := mkcase {
   c_untyped : list (string * dkind);               (* un-annotated parameters with a default: what kind of value it is *)
   c_obs_inferred : list (string * ity);            (* the type of their field in the first request's class, as observed *)
   c_pair : option pairinfo;                        (* Some: a two-callable history (c_main = false) *)
-  c_obs_ftype_ok : list (string * bool)            (* per field of the first request's class: does it carry the parameter's own
+  c_obs_ftype_ok : list (string * bool);           (* per field of the first request's class: does it carry the parameter's own
                                                       annotation (for an un-annotated parameter: the class-level one)? *)
+  c_obs_aliased : list string                      (* parameters with a list/dict/set default that received (or whose field default
+                                                      factory returns) the signature's default OBJECT itself, or whose signature
+                                                      default changed after the received value was mutated *)
 }.
+
+(* a container default only ever reaches the callable through copy.deepcopy (otherwise set-up fails): never aliased *)
+Definition no_alias (c : case) : bool := match c.(c_obs_aliased) with [] => true | _ => false end.
 
 Definition vals_of (l : list (string * string)) (n : string) : string :=
   match lookup l n with Some v => v | None => "<no value>" end.
@@ -103,6 +109,7 @@ Definition in_scope (c : case) : bool := true.
 
 Definition model_ok (c : case) : bool :=
   let observed := (c.(c_obs_call), c.(c_obs_result)) in
+  no_alias c &&
   match c.(c_pair) with Some p => pair_model_ok c p | None =>
   if c.(c_main) then
     trace_eqb (main_run facts_gen c.(c_sig) (parsed_of c) c.(c_xpos) c.(c_xkw)) observed
@@ -121,6 +128,7 @@ Definition model_ok (c : case) : bool :=
 
 Definition spec_ok (c : case) : bool :=
   let observed := (c.(c_obs_call), c.(c_obs_result)) in
+  no_alias c &&
   match c.(c_pair) with Some p => pair_spec_ok c p | None =>
   if c.(c_main) then
     spec_main String.eqb c.(c_sig) (parsed_of c)
